@@ -9,7 +9,14 @@
 use super::*;
 use crate::config::DEFAULT_PEER_TIMEOUT;
 
-fn fail(failing: &mut usize, msg: String) {
+
+// every check of this driver is tagged with the properties whose statement it is taken from; when the driver is consulted for ONE
+// property (VERIF_PROPERTY, set by ./check) only the failures tagged with it count
+fn counts(tags: &str) -> bool {
+    match std::env::var("VERIF_PROPERTY") { Ok(p) if !p.is_empty() => tags.split(',').any(|t| t == p), _ => true }
+}
+fn fail(tags: &str, failing: &mut usize, msg: String) {
+    if !counts(tags) { return; }
     *failing += 1;
     if *failing <= 3 { println!("FAILING-INPUT: {}", msg); }
 }
@@ -24,7 +31,7 @@ fn drain<P: Protocol>(sim: &mut Simulator<P>) -> bool {
     }
     true
 }
-macro_rules! deliver { ($sim:expr, $failing:expr, $what:expr) => { if !drain(&mut $sim) { fail($failing, format!("{}: the nodes exchange more than 20000 datagrams within one instant (endless redial / re-handshake loop)", $what)); return; } }; }
+macro_rules! deliver { ($sim:expr, $failing:expr, $what:expr) => { if !drain(&mut $sim) { fail("C15,C05", $failing, format!("{}: the nodes exchange more than 20000 datagrams within one instant (endless redial / re-handshake loop)", $what)); return; } }; }
 
 fn cfg(device_type: Type, peer_timeout: u32, keepalive: Option<u32>) -> Config {
     Config { device_type, peer_timeout, keepalive, ..Config::default() }
@@ -35,7 +42,7 @@ fn healthy_mesh(settings: &[(u32, Option<u32>)], horizon: Time, failing: &mut us
     let nodes: Vec<SocketAddr> = settings.iter().map(|(t, k)| sim.add_node(false, &cfg(Type::Tap, *t, *k))).collect();
     for i in 0..nodes.len() { for j in i + 1..nodes.len() { sim.connect(nodes[i], nodes[j]); } }
     deliver!(sim, failing, format!("mesh {:?}", settings));
-    for &a in &nodes { for &b in &nodes { if a != b && !sim.is_connected(a, b) { fail(failing, format!("mesh {:?}: {} and {} do not connect", settings, a, b)); return; } } }
+    for &a in &nodes { for &b in &nodes { if a != b && !sim.is_connected(a, b) { fail("C15,C12,C13", failing, format!("mesh {:?}: {} and {} do not connect", settings, a, b)); return; } } }
     let mut t = 0;
     while t < horizon {
         t += 1;
@@ -43,7 +50,7 @@ fn healthy_mesh(settings: &[(u32, Option<u32>)], horizon: Time, failing: &mut us
         sim.trigger_housekeep();
         for (i, &a) in nodes.iter().enumerate() { for (j, &b) in nodes.iter().enumerate() {
             if a != b && !sim.is_connected(a, b) {
-                fail(failing, format!("healthy mesh with (peer timeout, keepalive) = {:?} on a delivering network: at t={} node {} (timeout {}) has forgotten the reachable node {} (timeout {})", settings, t, i + 1, settings[i].0, j + 1, settings[j].0));
+                fail("C15", failing, format!("healthy mesh with (peer timeout, keepalive) = {:?} on a delivering network: at t={} node {} (timeout {}) has forgotten the reachable node {} (timeout {})", settings, t, i + 1, settings[i].0, j + 1, settings[j].0));
                 return;
             }
         } }
@@ -59,7 +66,7 @@ fn restarted_peer(a_timeout: u32, b_before: u32, b_after: u32, failing: &mut usi
     let b = sim.add_node(false, &cfg(Type::Tap, b_before, None));
     sim.connect(a, b);
     deliver!(sim, failing, "healthy mesh / restart scenario");
-    if !sim.is_connected(a, b) || !sim.is_connected(b, a) { fail(failing, format!("restart {}->{}: nodes do not connect", b_before, b_after)); return; }
+    if !sim.is_connected(a, b) || !sim.is_connected(b, a) { fail("C15", failing, format!("restart {}->{}: nodes do not connect", b_before, b_after)); return; }
     let mut t: Time = 0;
     // (wait until the handshake object lingering in A has closed, 60 s: while it lingers, A answers every ping of a restarted B with its
     // stored peng and B answers every peng with its stored ping - an endless exchange; observation recorded in DESIGN.md under C05)
@@ -76,7 +83,7 @@ fn restarted_peer(a_timeout: u32, b_before: u32, b_after: u32, failing: &mut usi
     }
     sim.connect(b, a);
     deliver!(sim, failing, "healthy mesh / restart scenario");
-    if !sim.is_connected(a, b) || !sim.is_connected(b, a) { fail(failing, format!("restart {}->{}: the restarted node does not reconnect", b_before, b_after)); return; }
+    if !sim.is_connected(a, b) || !sim.is_connected(b, a) { fail("C15", failing, format!("restart {}->{}: the restarted node does not reconnect", b_before, b_after)); return; }
     let settle = 3 * a_timeout.max(b_before).max(b_after).min(1200) as Time;
     let end = t + 2 * settle;
     let from = t + settle;
@@ -85,7 +92,7 @@ fn restarted_peer(a_timeout: u32, b_before: u32, b_after: u32, failing: &mut usi
         sim.set_time(t);
         sim.trigger_housekeep();
         if t >= from && (!sim.is_connected(a, b) || !sim.is_connected(b, a)) {
-            fail(failing, format!("node B (peer timeout {} s) restarts with peer timeout {} s and reconnects to A (peer timeout {} s) from the same address: at t={} on a delivering network {} has forgotten its healthy peer", b_before, b_after, a_timeout, t, if !sim.is_connected(b, a) { "B" } else { "A" }));
+            fail("C15", failing, format!("node B (peer timeout {} s) restarts with peer timeout {} s and reconnects to A (peer timeout {} s) from the same address: at t={} on a delivering network {} has forgotten its healthy peer", b_before, b_after, a_timeout, t, if !sim.is_connected(b, a) { "B" } else { "A" }));
             return;
         }
         deliver!(sim, failing, "healthy mesh / restart scenario");
@@ -103,7 +110,7 @@ fn silent_peer(own_timeout: u32, silent_timeout: u32, tap: bool, failing: &mut u
         let c = $sim.add_node(false, &Config { claims: $cc, ..cfg($ty, own_timeout, None) });
         $sim.connect(a, b); $sim.connect(a, c); $sim.connect(b, c);
         deliver!($sim, failing, format!("{}: silent peer scenario", what));
-        if !$sim.is_connected(a, b) || !$sim.is_connected(a, c) { fail(failing, format!("{}: nodes do not connect", what)); return; }
+        if !$sim.is_connected(a, b) || !$sim.is_connected(a, c) { fail("C15,C12,C13", failing, format!("{}: nodes do not connect", what)); return; }
         // B talks (A learns its address in switch mode), then leaves the network without a close message
         $sim.put_payload(b, $from_b);
         deliver!($sim, failing, format!("{}: silent peer scenario", what));
@@ -125,7 +132,7 @@ fn silent_peer(own_timeout: u32, silent_timeout: u32, tap: bool, failing: &mut u
             deliver!($sim, failing, format!("{}: silent peer scenario", what));
             if t >= deadline {
                 if $sim.is_connected(a, b) {
-                    fail(failing, format!("{}: own peer timeout {} s, silent peer advertised {} s: at t={} ({} s after its last message) the silent peer is still a peer", what, own_timeout, silent_timeout, t, t - t0));
+                    fail("C15", failing, format!("{}: own peer timeout {} s, silent peer advertised {} s: at t={} ({} s after its last message) the silent peer is still a peer", what, own_timeout, silent_timeout, t, t - t0));
                     return;
                 }
                 if (t - deadline) % 7 == 0 {
@@ -136,11 +143,11 @@ fn silent_peer(own_timeout: u32, silent_timeout: u32, tap: bool, failing: &mut u
                     let to_b = $sim.messages.iter().filter(|m| m.1 == b && big(m.2.len())).count();
                     let to_c = $sim.messages.iter().filter(|m| m.1 == c && big(m.2.len())).count();
                     if to_b > 0 {
-                        fail(failing, format!("{}: own peer timeout {} s: at t={} ({} s after the silent peer's last message, it has been forgotten) a payload for its address is still sent to it ({} datagram(s))", what, own_timeout, t, t - t0, to_b));
+                        fail("C12,C13", failing, format!("{}: own peer timeout {} s: at t={} ({} s after the silent peer's last message, it has been forgotten) a payload for its address is still sent to it ({} datagram(s))", what, own_timeout, t, t - t0, to_b));
                         return;
                     }
                     if tap && to_c != 1 {
-                        fail(failing, format!("{}: own peer timeout {} s: at t={} ({} s after the silent peer's last message, it has been forgotten) a frame for the address learned from it is not flooded to the remaining peer ({} datagrams): a route still points at the forgotten peer", what, own_timeout, t, t - t0, to_c));
+                        fail("C12,C13", failing, format!("{}: own peer timeout {} s: at t={} ({} s after the silent peer's last message, it has been forgotten) a frame for the address learned from it is not flooded to the remaining peer ({} datagrams): a route still points at the forgotten peer", what, own_timeout, t, t - t0, to_c));
                         return;
                     }
                     $sim.messages.clear();
